@@ -26,7 +26,7 @@ def main():
             if len(found) == len(want):
                 break
             out = os.path.join(d, fam + ".json")
-            r = subprocess.run(["/venv/bin/python", os.path.join(VERIF, "corr", "sim", "batch.py"), fam, "0", str(count), out],
+            r = subprocess.run(["/venv/bin/python", os.path.join(VERIF, "corr", "sim", "batch.py"), fam, os.environ.get("SEED0", "0"), str(count), out],
                                stdout=subprocess.DEVNULL, stderr=subprocess.DEVNULL, stdin=subprocess.DEVNULL, env=dict(os.environ, PYTHONHASHSEED="0"), start_new_session=True)
             if not os.path.exists(out):
                 print(f"family {fam}: no output (rc {r.returncode})")
